@@ -123,6 +123,12 @@ class Impl:
                 out.extend(fn.interface_list)
         for s in t.network_services.values():
             out.extend(s.interface_list)
+        # sub-interfaces (children of dedicated ports) are connectable too
+        for h in list(out):
+            try:
+                out.extend(h.interface_list)
+            except Exception:
+                pass
         return out
 
     def iface(self, ref):
